@@ -68,6 +68,11 @@ Seal(rk, iv, aad, p, t) ==
       j0 == J0(H, iv)
       c == GCtr(rk, Inc(j0), p)
   IN c \o Tag(rk, H, j0, aad, c, t)
+\* what counter-mode decryption of the body yields whether or not the tag matches (the bytes an
+\* implementation that decrypts before it has verified would have produced)
+Decrypted(rk, iv, ct, t) ==
+  IF Len(ct) < t THEN <<>>
+  ELSE GCtr(rk, Inc(J0(HashKey(rk), iv)), SubSeq(ct, 1, Len(ct) - t))
 Open(rk, iv, aad, ct, t) ==
   IF Len(ct) < t THEN [ok |-> FALSE, pt |-> <<>>]
   ELSE LET H == HashKey(rk)
